@@ -266,8 +266,12 @@ func (p *printer) expr(e *E, sp string) {
 		var b strings.Builder
 		b.WriteString("\"")
 		sub := &printer{in: true}
-		for _, part := range e.A {
-			if part.K == "str" {
+		for i, part := range e.A {
+			// parts alternate: literal text, expression, literal text, ...
+			// (an expression that is a string literal, or any string part of
+			// a hand-built node with another layout, is written as text unless
+			// that would join a '#' and a '{')
+			if part.K == "str" && (i%2 == 0 || len(e.A)%2 == 0 || !strings.ContainsAny(part.S, "#{")) {
 				b.WriteString(part.S)
 				continue
 			}
